@@ -112,6 +112,7 @@ class Engine:
         self.wire = []  # (t, dir, data, fate)
         self.timeout_step = 0.05
         self.on_iteration = None
+        self.policy = None  # optional object with c2s(data)->action|None and s2c(data, i, n)->action|None (overrides the tapes)
 
     # -- wiring
     def attach(self, obj):
@@ -141,7 +142,9 @@ class Engine:
         if self.peer is None:
             self.wire.append((now, "c2s", data, "no-peer"))
             return
-        act = self._action("c2s")
+        act = self.policy.c2s(data) if self.policy is not None else None
+        if act is None:
+            act = self._action("c2s")
         self.wire.append((now, "c2s", data, act if isinstance(act, str) else "delay"))
         if act == "drop":
             return
@@ -156,7 +159,9 @@ class Engine:
         t = t0 + self.LATENCY
         while i < len(replies):
             data, dest = replies[i]
-            act = self._action("s2c")
+            act = self.policy.s2c(data, i, len(replies)) if self.policy is not None else None
+            if act is None:
+                act = self._action("s2c")
             when = t + i * self.PACING
             if act == "drop":
                 self.wire.append((t0, "s2c", data, "drop"))
